@@ -25,9 +25,7 @@ def sumNat : List Nat → Nat
   | [] => 0
   | a :: r => a + sumNat r
 
-def sumR : List Rat → Rat
-  | [] => 0
-  | a :: r => a + sumR r
+def sumR (l : List Rat) : Rat := l.sum
 
 /-- sum of the known entries -/
 def knownSum : List (Option Rat) → Rat
@@ -71,19 +69,22 @@ def firstRowPass (sx : Rat) : Nat → List (Nat × Option Rat) → List (Option 
 def fixedKnown (i : FixedIn) : List (Option Rat) :=
   firstRowPass i.sx 0 i.first (i.cols ++ List.replicate (i.numColumns - i.cols.length) none)
 
+/-- column widths after "distribute the remaining space equally on columns that do not have a width yet" -/
+def fixedDistributed (i : FixedIn) : List Rat :=
+  let cw := fixedKnown i
+  let minTableWidth := i.sx * ((i.numColumns : Rat) + 1) + knownSum cw
+  if unknowns cw ≠ 0 ∧ i.width ≥ minTableWidth then
+    resolveWith ((i.width - minTableWidth) / (unknowns cw : Rat)) cw
+  else
+    resolveWith 0 cw        -- "XXX this is bad, but we were given a broken table to work with..."
+
 /-- fixedTableLayout: (new table.Width, table.ColumnWidths) -/
 def fixedLayout (i : FixedIn) : Rat × List Rat :=
   let n := i.numColumns
-  let cw := fixedKnown i
+  let out := fixedDistributed i
   let allBorderSpacing := i.sx * ((n : Rat) + 1)
-  let minTableWidth := allBorderSpacing + knownSum cw
-  let out :=
-    if unknowns cw ≠ 0 ∧ i.width ≥ minTableWidth then
-      resolveWith ((i.width - minTableWidth) / (unknowns cw : Rat)) cw
-    else
-      resolveWith 0 cw        -- "XXX this is bad, but we were given a broken table to work with..."
   let extraWidth := i.width - sumR out - allBorderSpacing
-  if extraWidth ≤ 0 then (i.width - extraWidth, out)
+  if extraWidth ≤ 0 then (i.width - extraWidth, out)      -- "substract a negative: widen the table"
   else if n ≠ 0 then (i.width, out.map (· + extraWidth / (n : Rat)))
   else (i.width, out)
 
@@ -107,14 +108,14 @@ structure CellIn where
   gx : Nat        -- cell.GridX
   cs : Nat        -- cell.Colspan as built (≥ 1)
   bpp : Rat       -- cell.BorderWidth() with width = 0: horizontal borders plus padding
-  deriving Repr
+  deriving Repr, DecidableEq
 
 structure CellOut where
   gx : Nat
   cs : Nat        -- cell.Colspan after clipping to the grid
   x : Rat         -- cell.PositionX
   width : Rat     -- cell.Width
-  deriving Repr
+  deriving Repr, DecidableEq
 
 /-- `columnWidths[gx:][:colspan]` with Go's guards (`gx < len`, `colspan < len`) -/
 def spanned (ws : List Rat) (gx cs : Nat) : List Rat := (ws.drop gx).take cs
